@@ -307,9 +307,16 @@ func c01BatchText(rec arrow.RecordBatch) string {
 // c01Parse is the independent walk: the abstract body of a byte string as arrow-go's reader
 // sees it. ok=false: the walk itself panicked (then nothing is compared for this line).
 func c01Parse(data []byte) (line string, ok bool) {
+	line, ok, _ = c01ParseRemain(data)
+	return line, ok
+}
+
+// c01ParseRemain also reports how many bytes were still unread when an open failed (junk): what a
+// reader that keeps going finds there is not determined by the abstract body.
+func c01ParseRemain(data []byte) (line string, ok bool, afterJunk int) {
 	defer func() {
 		if r := recover(); r != nil {
-			line, ok = "", false
+			line, ok, afterJunk = "", false, 0
 		}
 	}()
 	words := []string{"body"}
@@ -318,6 +325,7 @@ func c01Parse(data []byte) (line string, ok bool) {
 		rd, err := ipc.NewReader(r)
 		if err != nil {
 			words = append(words, "J")
+			afterJunk = r.Len()
 			break
 		}
 		var bs []string
@@ -336,7 +344,7 @@ func c01Parse(data []byte) (line string, ok bool) {
 			break
 		}
 	}
-	return strings.Join(words, " "), true
+	return strings.Join(words, " "), true, afterJunk
 }
 
 // ---------------------------------------------------------------- the readers under test
